@@ -17,7 +17,7 @@ func init() {
 		Explanation: "DECIDED (borrow, concurrency-state and ordering rules): cache-borrowed (the slice returned by (*dnscache.Resolver).LookupHost is the cache entry's own slice; nothing derived from it reaches a mutating sink — a swap closure, an append onto a reslice, a sort, or an in-package callee that does so, e.g. firstOfEachIPFamily compacting into ips[:0]; a copy clears the taint); conc-state (closures installed as Transport.DialContext run on many workers: every store to state that outlives one call — captured variables or objects reached through captured containers — is atomic or under a captured mutex, no method of a not-goroutine-safe type such as *math/rand.Rand is called on captured state, atomically accessed fields are never accessed plainly); capture allowlist (a dial closure captures only the previous dial function and the resolver / mapping it is documented to consult, so the dialled address can only come from this call's lookup or the mapping, not from a side cache); rotation (one atomic Add per mapped dial, index from its result modulo len of the same address list; unmapped addresses pass through unchanged); one address per family and happy-eyeballs accounting (channel capacity = number of goroutines spawned = receives); wrapper chaining (each wrapping option dials through the DialContext it found, falling back to the dialer only when nil); composition order of the attack command's NewAttacker call (DialContext resets before wraps, DNSCaching before ConnectTo, the transport-replacing option after every option that needs *http.Transport). " +
 			"NOT DECIDED: uniformity of the random pick, 'keeps being used over time', and race-detector schedules.",
 		Assumptions: []string{"dnscache.Resolver.LookupHost returns the cache entry's slice (read in the dependency source)", "math/rand package-level functions are goroutine-safe"},
-		MinObs:      14,
+		MinObs:      12,
 		Run:         runC18,
 	})
 }
@@ -355,32 +355,35 @@ func sharedValue(v ssa.Value, top *ssa.Function) bool {
 }
 
 func c18Rotation(c *Ctx, dcs []dialClosure) {
-	const rule = "a dial to a mapped address picks addrs[n % len(addrs)] where n is the result of this call's single atomic Add on that mapping's counter; unmapped addresses are passed through unchanged"
+	const rule = "a dial to a mapped address picks addrs[n % len(addrs)] where n is the result of this call's single atomic Add on that mapping's counter (inline or in a helper method of the mapping entry); unmapped addresses are passed through unchanged"
 	for _, dc := range dcs {
 		if !strings.Contains(shortFn(dc.fn), "ConnectTo") {
 			continue
 		}
 		key := "atomic-rotation:" + shortFn(dc.fn)
 		var ops []*ssa.Call
-		eachInstr(dc.fn, func(i ssa.Instruction) {
-			if call, ok := i.(*ssa.Call); ok && strings.HasPrefix(callName(&call.Call), "sync/atomic.") {
-				ops = append(ops, call)
-			}
-		})
+		for _, f := range region(dc.fn) {
+			eachInstr(f, func(i ssa.Instruction) {
+				if call, ok := i.(*ssa.Call); ok && strings.HasPrefix(callName(&call.Call), "sync/atomic.") {
+					ops = append(ops, call)
+				}
+			})
+		}
 		ok := len(ops) == 1 && strings.HasPrefix(callName(&ops[0].Call), "sync/atomic.Add")
 		why := fmt.Sprintf("%d atomic operations per mapped dial; a load/store pair is not an atomic increment (two workers get the same index): want exactly one atomic Add", len(ops))
 		if len(ops) == 0 {
 			why = "the round-robin counter is not advanced atomically"
 		}
-		var pick *ssa.UnOp
+		var pick ssa.Value
 		if ok {
 			if d, isD := constInt(ops[0].Call.Args[1]); !isD || d != 1 {
 				ok, why = false, "the counter does not advance by one"
 			}
 		}
 		if ok {
+			F := ops[0].Parent()
 			ok, why = false, "the replacement is not addrs[counter % len(addrs)] of the same mapping entry"
-			eachInstr(dc.fn, func(i ssa.Instruction) {
+			eachInstr(F, func(i ssa.Instruction) {
 				ia, isIA := i.(*ssa.IndexAddr)
 				if !isIA {
 					return
@@ -390,15 +393,30 @@ func c18Rotation(c *Ctx, dcs []dialClosure) {
 					return
 				}
 				if lenOf(stripConv(rem.Y), func(v ssa.Value) bool { return path(v) == path(ia.X) }) {
-					// counter and list belong to the same object
 					cfa, isC := ops[0].Call.Args[0].(*ssa.FieldAddr)
 					ld, isL := isLoad(ia.X)
 					if isC && isL {
 						if lfa, isF := ld.X.(*ssa.FieldAddr); isF && lfa.X == cfa.X {
-							ok = true
 							for _, r := range refs(ia) {
 								if l2, isL2 := r.(*ssa.UnOp); isL2 {
-									pick = l2
+									if F == dc.fn {
+										pick = l2
+										ok = true
+									} else {
+										// helper: it must return the picked element; the pick is its call in the closure
+										ret := false
+										eachInstr(F, func(j ssa.Instruction) {
+											if rr, isR := j.(*ssa.Return); isR && len(rr.Results) == 1 && rr.Results[0] == ssa.Value(l2) {
+												ret = true
+											}
+										})
+										eachInstr(dc.fn, func(j ssa.Instruction) {
+											if call, isCall := j.(*ssa.Call); isCall && call.Call.StaticCallee() == F && ret {
+												pick = call
+												ok = true
+											}
+										})
+									}
 								}
 							}
 						}
@@ -407,29 +425,37 @@ func c18Rotation(c *Ctx, dcs []dialClosure) {
 			})
 		}
 		if ok {
-			// the address dialled: φ[addr param (unmapped), pick (mapped)], mapped edge guarded by the lookup's ok flag
-			okPass := false
+			// every dial through the captured dialer gets the original address (unmapped) or the pick (mapped)
+			nOrig, nPick := 0, 0
+			okArgs := true
+			var classify func(v ssa.Value)
+			classify = func(v ssa.Value) {
+				switch {
+				case v == ssa.Value(dc.fn.Params[2]):
+					nOrig++
+				case v == pick:
+					nPick++
+				default:
+					if phi, isPhi := v.(*ssa.Phi); isPhi {
+						for _, e := range phi.Edges {
+							classify(e)
+						}
+						return
+					}
+					okArgs = false
+				}
+			}
 			eachInstr(dc.fn, func(i ssa.Instruction) {
 				call, isCall := i.(*ssa.Call)
 				if !isCall || call.Call.StaticCallee() != nil || call.Call.IsInvoke() || len(call.Call.Args) != 3 {
 					return
 				}
-				phi, isPhi := call.Call.Args[2].(*ssa.Phi)
-				if !isPhi || len(phi.Edges) != 2 {
+				if ld, isL := isLoad(call.Call.Value); !isL || !isFuncType(ld.X.Type()) {
 					return
 				}
-				hasParam, hasPick := false, false
-				for _, e := range phi.Edges {
-					if p, isP := e.(*ssa.Parameter); isP && p == dc.fn.Params[2] {
-						hasParam = true
-					}
-					if pick != nil && e == ssa.Value(pick) {
-						hasPick = true
-					}
-				}
-				okPass = hasParam && hasPick
+				classify(call.Call.Args[2])
 			})
-			if !okPass {
+			if !okArgs || nOrig == 0 || nPick == 0 {
 				ok, why = false, "the address handed to the underlying dialer is not {the original address when unmapped, the picked replacement when mapped}"
 			}
 		}
@@ -463,11 +489,35 @@ func c18Families(c *Ctx) {
 			if ok {
 				// receives: loop bounded by cap(ch)
 				okRecv := false
+				// the slice whose length sized the channel
+				var sized ssa.Value
 				eachInstr(fn, func(j ssa.Instruction) {
-					if call, isCall := j.(*ssa.Call); isCall && callName(&call.Call) == "builtin:cap" {
-						for _, r := range refs(call) {
-							if bo, isBo := r.(*ssa.BinOp); isBo && bo.Op == token.LSS && isRangeIndex(bo.X) {
-								okRecv = true
+					if mk, isMk := j.(*ssa.MakeChan); isMk {
+						if lc, isLc := mk.Size.(*ssa.Call); isLc && callName(&lc.Call) == "builtin:len" {
+							sized = lc.Call.Args[0]
+						}
+					}
+				})
+				eachInstr(fn, func(j ssa.Instruction) {
+					call, isCall := j.(*ssa.Call)
+					if !isCall {
+						return
+					}
+					n := callName(&call.Call)
+					if n != "builtin:cap" && !(n == "builtin:len" && sized != nil && sameSliceValue(call.Call.Args[0], sized)) {
+						return
+					}
+					for _, r := range refs(call) {
+						bo, isBo := r.(*ssa.BinOp)
+						if !isBo || bo.Op != token.LSS || !isRangeIndex(bo.X) {
+							continue
+						}
+						// the bounded loop must contain a receive from the channel
+						if ifi := trueImpliesIf(bo); ifi != nil {
+							for x := range exploreBlock(ifi.Block().Succs[0], func(y ssa.Instruction) bool { return y.Block() == bo.Block() }) {
+								if u, isU := x.(*ssa.UnOp); isU && u.Op == token.ARROW {
+									okRecv = true
+								}
 							}
 						}
 					}
@@ -489,11 +539,18 @@ func c18Families(c *Ctx) {
 	}
 	okBound := false
 	eachInstr(fn, func(i ssa.Instruction) {
-		if bo, ok := i.(*ssa.BinOp); ok && bo.Op == token.LSS {
-			if two, isTwo := constInt(bo.Y); isTwo && two == 2 {
-				if call, isCall := bo.X.(*ssa.Call); isCall && callName(&call.Call) == "builtin:len" {
-					okBound = true
-				}
+		bo, ok := i.(*ssa.BinOp)
+		if !ok {
+			return
+		}
+		switch bo.Op {
+		case token.LSS, token.GEQ, token.EQL, token.NEQ:
+		default:
+			return
+		}
+		if two, isTwo := constInt(bo.Y); isTwo && two == 2 {
+			if call, isCall := bo.X.(*ssa.Call); isCall && callName(&call.Call) == "builtin:len" && trueImpliesIf(bo) != nil {
+				okBound = true
 			}
 		}
 	})
